@@ -85,10 +85,26 @@ class RxRecorder(contextlib.AbstractContextManager):
         self._pending = {}
         self._keep = []
         self._saved = []
+        self._mod_saved = []
+        self._ctx = None            # request_id of the propagate / propagate_and_optimize_mode call in progress
 
     def __enter__(self):
         from gnpy.core.elements import Transceiver
+        import gnpy.topology.request as rq
         rec = self
+        for fname in ('propagate', 'propagate_and_optimize_mode'):
+            orig = getattr(rq, fname)
+
+            def mk(orig):
+                def wrapped(path, req, equipment):
+                    prev, rec._ctx = rec._ctx, str(req.request_id)
+                    try:
+                        return orig(path, req, equipment)
+                    finally:
+                        rec._ctx = prev
+                return wrapped
+            self._mod_saved.append((fname, orig))
+            setattr(rq, fname, mk(orig))
         o_call, o_upd, o_pen = Transceiver.__call__, Transceiver.update_snr, Transceiver.calc_penalties
 
         def call(el, spectral_info):
@@ -113,7 +129,7 @@ class RxRecorder(contextlib.AbstractContextManager):
             if p is None or line is None or not np.any(line > 0):
                 return                      # the emitting transceiver (no noise yet) or a call outside the protocol
             n = len(p['rx'])
-            ev = dict(uid=el.uid, obj=id(el), nup=p['nup'], nargs=p['nargs'], pen_id=id(penalties), line=line,
+            ev = dict(uid=el.uid, obj=id(el), req=rec._ctx, nup=p['nup'], nargs=p['nargs'], pen_id=id(penalties), line=line,
                       rx=p['rx'], baud=float(np.asarray(el.baud_rate).flat[0]),
                       cd=np.array(el.chromatic_dispersion, dtype=float, copy=True),
                       pmd=np.array(el.pmd, dtype=float, copy=True), pdl=np.array(el.pdl, dtype=float, copy=True),
@@ -128,6 +144,10 @@ class RxRecorder(contextlib.AbstractContextManager):
 
     def __exit__(self, *exc):
         from gnpy.core.elements import Transceiver
+        import gnpy.topology.request as rq
+        for fname, orig in self._mod_saved:
+            setattr(rq, fname, orig)
+        self._mod_saved = []
         for name, orig in self._saved:
             setattr(Transceiver, name, orig)
         self._saved = []
@@ -164,11 +184,27 @@ def worst_db(ev):
 
 
 # ----------------------------------------------------------------------------------------------------------- bench
-def service(rid, src, dst, mode, bidir, spacing, trx=TRX):
-    return {'request-id': str(rid), 'source': src, 'destination': dst, 'src-tp-id': src, 'dst-tp-id': dst,
-            'bidirectional': bool(bidir),
-            'path-constraints': {'te-bandwidth': {'technology': 'flexi-grid', 'trx_type': trx, 'trx_mode': mode,
-                                                  'spacing': spacing, 'path_bandwidth': 100e9}}}
+def service(rid, src, dst, mode, bidir, spacing, trx=TRX, via=()):
+    """via: ROADM uids the route must include (STRICT), in order"""
+    d = {'request-id': str(rid), 'source': src, 'destination': dst, 'src-tp-id': src, 'dst-tp-id': dst,
+         'bidirectional': bool(bidir),
+         'path-constraints': {'te-bandwidth': {'technology': 'flexi-grid', 'trx_type': trx, 'trx_mode': mode,
+                                               'spacing': spacing, 'path_bandwidth': 100e9}}}
+    if via:
+        d['explicit-route-objects'] = {'route-object-include-exclude': [
+            {'explicit-route-usage': 'route-include-ero', 'index': i,
+             'num-unnum-hop': {'node-id': node, 'link-tp-id': 'link-tp-id is not used', 'hop-type': 'STRICT'}}
+            for i, node in enumerate(via)]}
+    return d
+
+
+BAND = {'lower-frequency': 191.3e12, 'upper-frequency': 196.1e12}
+
+
+def osnr_profiles(listed):
+    """[(id, 'add'|'drop', osnr dB), ...] in LISTED order -> roadm-path-impairments of an equipment Roadm entry"""
+    return [{'roadm-path-impairments-id': i, f'roadm-{kind}-path': [{'frequency-range': dict(BAND), 'roadm-osnr': osnr}]}
+            for i, kind, osnr in listed]
 
 
 class Bench:
@@ -176,8 +212,10 @@ class Bench:
     equipment dictionary from the (modified) equipment JSON with the real loader - neither enters the design."""
 
     def __init__(self, name, eqpt_file, topo_file, add_drop_osnr=None, detailed_sites=(), detailed_osnr=(39.0, 43.0),
-                 extra_fibers=()):
-        """topo_file: a file name under example-data or a topology dict (synthetic networks)"""
+                 extra_fibers=(), roadm_profiles=None, per_degree=None):
+        """topo_file: a file name under example-data or a topology dict (synthetic networks)
+        roadm_profiles: roadm-path-impairments given to the default ROADM type (see osnr_profiles)
+        per_degree: {roadm uid: [{'from_degree', 'to_degree', 'impairment_id'}, ...]} written into the topology"""
         from gnpy.tools.json_io import load_json, network_from_json
         from gnpy.tools.worker_utils import designed_network
         from gnpy.topology.spectrum_assignment import build_oms_list
@@ -186,6 +224,9 @@ class Bench:
         self.ej.pop('library-information', None)
         self.ej['Fiber'] = list(self.ej['Fiber']) + [dict(f) for f in extra_fibers]
         for r in self.ej['Roadm']:
+            if roadm_profiles is not None and 'type_variety' not in r:
+                r['roadm-path-impairments'] = copy.deepcopy(roadm_profiles)
+                continue
             if add_drop_osnr is not None and not r.get('roadm-path-impairments'):
                 r['add_drop_osnr'] = add_drop_osnr
             for prof in r.get('roadm-path-impairments', []):
@@ -196,6 +237,9 @@ class Bench:
         for e in topo['elements']:
             if e['type'] == 'Roadm' and e['uid'] in detailed_sites:
                 e['type_variety'] = 'detailed_impairments'
+            if e['type'] == 'Roadm' and e['uid'] in (per_degree or {}):
+                e.setdefault('params', {})['per_degree_impairments'] = copy.deepcopy(per_degree[e['uid']])
+        self.topo = topo
         self.roadm_type = {e['uid']: e.get('type_variety', 'default') for e in topo['elements'] if e['type'] == 'Roadm'}
         self.eq0 = self.equipment([], None)
         self.net = network_from_json(topo, self.eq0)
@@ -220,22 +264,43 @@ class Bench:
         from gnpy.core.elements import Transceiver
         return sorted(n.uid for n in self.net.nodes() if isinstance(n, Transceiver))
 
-    def path(self, src, dst, spacing):
-        """the route the implementation computes for the pair (elements of the designed network)"""
+    def path(self, src, dst, spacing, via=()):
+        """the route the implementation computes for the pair, possibly constrained to include ROADMs (elements of
+        the designed network); [] when the router finds none"""
         from gnpy.tools.json_io import requests_from_json
         from gnpy.topology.request import compute_path_dsjctn, correct_json_route_list
-        key = (src, dst)
+        key = (src, dst, tuple(via))
         if key not in self._paths:
             eq = self.equipment([base_mode('probe', 32e9, 100e9, 37.5e9)], None)
-            rqs = requests_from_json({'path-request': [service(0, src, dst, 'probe', False, 50e9)]}, eq)
+            rqs = requests_from_json({'path-request': [service(0, src, dst, 'probe', False, 50e9, via=via)]}, eq)
             rqs = correct_json_route_list(self.net, rqs)
             self._paths[key] = compute_path_dsjctn(self.net, eq, rqs, [])[0]
         return self._paths[key]
 
-    def adddrop_inv(self, path):
-        """configured reciprocal OSNR of every add / drop stage on the path (read from the equipment JSON, by the
-        position of the ROADM on the path: right after / right before a transceiver)"""
+    def alternative_routes(self, src, dst):
+        """include-node constraints (one ROADM) that make the router take a route other than the shortest"""
+        from gnpy.core.elements import Roadm
+        base = [e.uid for e in self.path(src, dst, 50e9)]
+        out, seen = [], {tuple(base)}
+        for r in sorted(n.uid for n in self.net.nodes() if isinstance(n, Roadm)):
+            if r in base[:2] or r in base[-2:]:
+                continue
+            try:
+                p = [e.uid for e in self.path(src, dst, 50e9, via=(r,))]
+            except Exception:                                    # noqa - the router refuses the constraint
+                continue
+            if p and tuple(p) not in seen:
+                seen.add(tuple(p))
+                out.append((r,))
+        return out
+
+    def stages(self, path):
+        """CONFIGURATION of every add / drop stage on the path, for FeasibilityOps.StageInv: read from the equipment
+        JSON (profiles of the ROADM's type as listed, default add_drop_osnr) and the topology JSON (profile selected
+        for the pair of degrees), by the position of the ROADM on the path (right after / before a transceiver)"""
         from gnpy.core.elements import Roadm, Transceiver
+        from harness.gnpy_util import NONE
+        topo_el = {e['uid']: e for e in self.topo['elements']}
         out = []
         for k, el in enumerate(path):
             if not isinstance(el, Roadm):
@@ -246,26 +311,33 @@ class Bench:
                 continue
             tv = self.roadm_type[el.uid]
             entry = next(r for r in self.ej['Roadm'] if r.get('type_variety', 'default') == tv)
-            profs = [band for prof in entry.get('roadm-path-impairments', [])
-                     for band in prof.get(f'roadm-{kind}-path', [])]
-            if profs:
-                out.append(inv9(profs[0]['roadm-osnr']))
-            else:
-                out.append(inv9(entry.get('add_drop_osnr', 100) + LOG2))
+            profiles = []
+            for prof in entry.get('roadm-path-impairments', []):
+                for pk in ('add', 'drop', 'express'):
+                    bands = prof.get(f'roadm-{pk}-path')
+                    if bands:
+                        profiles.append({'id': prof['roadm-path-impairments-id'], 'kind': pk,
+                                         'inv': inv9(bands[0]['roadm-osnr']) if 'roadm-osnr' in bands[0] else 0})
+            sel = NONE
+            for pd in topo_el[el.uid].get('params', {}).get('per_degree_impairments', []):
+                if pd['from_degree'] == path[k - 1].uid and pd['to_degree'] == path[k + 1].uid:
+                    sel = pd['impairment_id']
+            out.append({'kind': kind, 'sel': sel, 'profiles': profiles,
+                        'dflt': inv9(entry.get('add_drop_osnr', 100) + LOG2)})
         return out
 
-    def pristine(self, src, dst, direction, spacing, mode_json):
+    def pristine(self, src, dst, direction, spacing, mode_json, via=()):
         """mode propagated ALONE on a fresh deepcopy of the (reverse) path with the implementation's propagate();
         cached by everything that can influence the figures (thresholds and min_spacing cannot)"""
         from gnpy.tools.json_io import requests_from_json
         from gnpy.topology.request import propagate, find_reversed_path
         phys = {k: mode_json.get(k) for k in ('baud_rate', 'roll_off', 'tx_osnr', 'equalization_offset_db', 'penalties')}
-        key = (src, dst, direction, spacing, json.dumps(phys, sort_keys=True))
+        key = (src, dst, tuple(via), direction, spacing, json.dumps(phys, sort_keys=True))
         if key not in self._pristine:
             m = dict(copy.deepcopy(mode_json), format='solo', OSNR=0, min_spacing=min(mode_json['min_spacing'], spacing))
             eq = self.equipment([m], None)
             req = requests_from_json({'path-request': [service('solo', src, dst, 'solo', False, spacing)]}, eq)[0]
-            p = self.path(src, dst, spacing)
+            p = self.path(src, dst, spacing, via)
             p = copy.deepcopy(find_reversed_path(p) if direction else p)
             with RxRecorder() as rec:
                 propagate(p, req, eq)
@@ -341,6 +413,40 @@ def run_request(bench, eq, src, dst, fixed_format, bidir, spacing):
         except Exception as e:                                   # noqa - an exception on a valid request is a finding
             exc = f'{type(e).__name__}: {e}'
     return rqs[0], rec.take(), exc
+
+
+def run_batch(bench, eq, src, dst, fixed_format, bidir, spacing, vias):
+    """one call of compute_path_with_disjunction for a batch of requests identical but for their route constraint
+    (vias[i]); returns (requests, evaluations tagged with the request id, exception text, the three result lists)"""
+    from gnpy.tools.json_io import requests_from_json
+    from gnpy.topology.request import compute_path_with_disjunction, correct_json_route_list
+    rqs = requests_from_json({'path-request': [service(f'r{i}', src, dst, fixed_format, bidir, spacing, via=v)
+                                               for i, v in enumerate(vias)]}, eq)
+    rqs = correct_json_route_list(bench.net, rqs)
+    pths = [bench.path(src, dst, spacing, v) for v in vias]
+    exc, res = None, None
+    with RxRecorder() as rec:
+        try:
+            res = compute_path_with_disjunction(bench.net, eq, rqs, pths)
+        except Exception as e:                                   # noqa - an exception on a valid request is a finding
+            exc = f'{type(e).__name__}: {e}'
+    return rqs, rec.take(), exc, res
+
+
+def project_reported(receiver, mode_idx):
+    """the receiver figures of the reverse path RETURNED for a request (what its verdict was taken on)"""
+    n = len(receiver.snr_01nm)
+    return dict(kind=2, mode=mode_idx, dir=1, rxdb=[udb(x) for x in receiver.snr_01nm],
+                tot=arr_udb(receiver.total_penalty, n))
+
+
+def stage_inv(st):
+    """mirror of FeasibilityOps.StageInv, used ONLY for the reported composition deviation (not for a verdict)"""
+    from harness.gnpy_util import NONE
+    if st['sel'] != NONE:
+        return next(p['inv'] for p in st['profiles'] if p['id'] == st['sel'])
+    same = [p for p in st['profiles'] if p['kind'] == st['kind']]
+    return same[0]['inv'] if same else st['dflt']
 
 
 def outcome_of(req, eq, exc):
